@@ -326,5 +326,5 @@ func checkLadder(c Case) verdict {
 	if c.Ladder == nil {
 		return verdict{outcomes: []string{"harness-error"}}
 	}
-	return withHorizon("building and sending the large body", func() verdict { return judgeLadder(c, executeLadder(c)) })
+	return guarded(6, "building and sending the large body", func() verdict { return judgeLadder(c, executeLadder(c)) })
 }
